@@ -32,23 +32,27 @@ def load_yaml(
         mapping._start_line = node._start_line
         return mapping
 
-    loader = MyLoader(text)
-    loader.add_constructor(
-        yaml.resolver.BaseResolver.DEFAULT_MAPPING_TAG, dict_constructor
-    )
     result: List[SerializableType] = []
-    while True:
-        try:
+    try:
+        loader = MyLoader(text)
+        loader.add_constructor(
+            yaml.resolver.BaseResolver.DEFAULT_MAPPING_TAG, dict_constructor
+        )
+        # Loop on check_data() rather than on the truthiness of the document, so
+        # that an empty document does not silently drop every document after it.
+        while loader.check_data():
             data = loader.get_data()
-        except yaml.error.MarkedYAMLError as err:
-            lineno = err.problem_mark.line
-            col = err.problem_mark.column
-            return [], ErrorParsingYAMLFile(path, err.problem, (lineno, col))
-
-        if data:
-            result.append(data)
-        else:
-            break
+            if data:
+                result.append(data)
+    except yaml.error.MarkedYAMLError as err:
+        mark = err.problem_mark or err.context_mark
+        position = (mark.line, mark.column) if mark is not None else (0, 0)
+        return [], ErrorParsingYAMLFile(path, err.problem or str(err), position)
+    except (yaml.error.YAMLError, TypeError, RecursionError) as err:
+        # ReaderError (unacceptable characters) carries no mark; an unhashable
+        # mapping key raises TypeError from the mapping constructor; pathological
+        # nesting exhausts the stack inside PyYAML.
+        return [], ErrorParsingYAMLFile(path, str(err), 0)
 
     return result, None
 
